@@ -14,13 +14,16 @@
      (b) normalised region depths are exactly the planted copy numbers (C01_ideal_region_copies);
      (c) a candidate whose score is the best one is reported by genotype()'s selection (C01_zero_score_selected,
          C01_best_chain_reported).
+     (d) for SUBSTITUTION and REFERENCE rows E1/E2 are no longer hypotheses: they are proved from the pileup model of C06 for
+         error-free reads at uniform depth (theories/Simulated.v; C01_error_free_reads_ideal_sub_row / _ref_row / _fit_zero);
+         the pileup model is tied to sam.py by the correspondence of bin/check C06.
    What is NOT proved here and is exercised by harness/c01.py on simulated reads instead:
-     - that real alignments give the ideal pileup (read parser C06; the realigner is a foreign component; two catalogued indels
+     - that real alignments give the ideal pileup for INSERTION / DELETION rows (the realigner is a foreign component; two catalogued indels
        8 bp apart get [0,0] from it, DESIGN.md section 5 item 6);
      - that each stage returns every minimiser of its objective (C02-C05) and that the objective of the planted combination is its
        fit error: the minor objective also has the phase term, which is not 0 on error-free reads for insertion alleles
        (DESIGN.md section 5 item 7), and the penalties for additions/omissions. *)
-From Aldy Require Import Base Consts Select SelectProofs Pipeline PipelineProofs Consts_here Consts_wf Exprs_cov Tied_cov_pipe.
+From Aldy Require Import Base Consts Select SelectProofs Pipeline PipelineProofs Consts_here Consts_wf Exprs_cov Tied_cov_pipe Pileup PileupProofs Simulated SimulatedProofs.
 Import List.
 Open Scope Z_scope.
 
@@ -84,6 +87,46 @@ Qed.
 
 Example C01_example_fit : (fit_error ex_rows ex_planted == 0)%Q /\ (fit_error ex_rows ex_wrong == 3)%Q.
 Proof. split; vm_compute; reflexivity. Qed.
+
+(* ---- E1/E2 are THEOREMS for substitution and reference rows of error-free reads (Simulated.v over the pileup model of C06):
+   any gene view, any number of planted copies given as haplotypes (a base at every position) with their reads, every read one
+   fully matched run carrying its haplotype's bases and accepted by the loader, every copy contributing exactly d reads over the
+   position: the row the stages read from the coverage table of that sample is ideal for the planted copies.  Rows of insertions
+   and deletions stay hypotheses (their counts come from the foreign realigner). ---- *)
+Theorem C01_error_free_reads_ideal_sub_row : forall (g : gview) (c : consts) (indels : indel_tab) (cs : list copy) (d x b : Z),
+  multi_ops_ok g -> (forall a, In a cs -> copy_ok g a) -> uniform_at d cs x -> multi_free g x -> in_gene g x = true ->
+  b <> base g x -> 1 <= d ->
+  alookup key_eqb (x, sub_op (base g x) b) indels = None -> alookup key_eqb (x, ref_op) indels = None ->
+  ideal_row (inZ d) cs (sub_row g c indels cs x b).
+Proof. intros g c indels cs d x b H1 H2 H3 H4 H5. exact (sim_sub_row_ideal g c indels cs d x H1 H2 H3 H4 H5 b). Qed.
+Goal True. idtac "ASSUME C01_error_free_reads_ideal_sub_row". Abort.
+Print Assumptions C01_error_free_reads_ideal_sub_row.
+
+Theorem C01_error_free_reads_ideal_ref_row : forall (g : gview) (c : consts) (indels : indel_tab) (cs : list copy) (d x b : Z),
+  multi_ops_ok g -> (forall a, In a cs -> copy_ok g a) -> uniform_at d cs x -> multi_free g x -> in_gene g x = true ->
+  b <> base g x -> 1 <= d ->
+  alookup key_eqb (x, sub_op (base g x) b) indels = None -> alookup key_eqb (x, ref_op) indels = None ->
+  ideal_row (inZ d) cs (ref_row g c indels cs x).
+Proof. intros g c indels cs d x b H1 H2 H3 H4 H5. exact (sim_ref_row_ideal g c indels cs d x H1 H2 H3 H4 H5 b). Qed.
+Goal True. idtac "ASSUME C01_error_free_reads_ideal_ref_row". Abort.
+Print Assumptions C01_error_free_reads_ideal_ref_row.
+
+(* ... hence, composed with C01_planted_fit_zero: over any list of such rows the planted copies have fit error 0 *)
+Theorem C01_error_free_reads_fit_zero : forall (g : gview) (c : consts) (indels : indel_tab) (cs : list copy) (d : Z) (sites : list (Z * Z)),
+  multi_ops_ok g -> (forall a, In a cs -> copy_ok g a) -> 1 <= d ->
+  (forall xb, In xb sites -> uniform_at d cs (fst xb) /\ multi_free g (fst xb) /\ in_gene g (fst xb) = true /\ snd xb <> base g (fst xb) /\
+                             alookup key_eqb (fst xb, sub_op (base g (fst xb)) (snd xb)) indels = None /\
+                             alookup key_eqb (fst xb, ref_op) indels = None) ->
+  (fit_error (flat_map (fun xb => [sub_row g c indels cs (fst xb) (snd xb); ref_row g c indels cs (fst xb)]) sites) cs == 0)%Q.
+Proof. exact sim_fit_zero. Qed.
+Goal True. idtac "ASSUME C01_error_free_reads_fit_zero". Abort.
+Print Assumptions C01_error_free_reads_fit_zero.
+
+(* non-vacuity: reference ACGTACGTACGT at 100..111; copy A = reference, copy B has G>T at 106; two 6-base reads per copy over 106 *)
+Example C01_example_simulated :
+  copy_ok sim_g sim_A /\ copy_ok sim_g sim_B /\ uniform_at 2 [sim_A; sim_B] 106 /\
+  (observed (sub_row sim_g here [] [sim_A; sim_B] 106 84) == 1)%Q /\ (observed (ref_row sim_g here [] [sim_A; sim_B] 106) == 1)%Q.
+Proof. exact sim_example. Qed.
 
 (* ================================================================= tie to the current source tree
    The decision expressions below are regenerated from /repo's Python AST on every run (harness/gen_exprs.py -> gen/Exprs_cov.v);
